@@ -259,7 +259,11 @@ def expand_c05(st, seed):
         r["w"]["norm"] = [rng.choice([1, 2, 3])]
         r["obsd"]["slice"] = [1, 1]
     else:
-        sl = {"all": [1, nout], "first": [1, 1], "last": [nout, nout]}[st["sl"]]
+        ns_ = nout
+        if st.get("sol") == "tail":          # the solution is outputs 2..nout; the observation slice indexes the SOLUTION components
+            r["sol"] = [2, nout]
+            ns_ = nout - 1
+        sl = {"all": [1, ns_], "first": [1, 1], "last": [ns_, ns_]}[st["sl"]]
         k = sl[1] - sl[0] + 1
         rows = [rpoint(rng, nin, has_t) for _ in range(b)]
         r["obsd"] = dict(on=True, **{"in": rows}, val=[[rng.randint(-3, 3) for _ in range(k)] for _ in range(b)], slice=sl,
@@ -305,8 +309,16 @@ def expand_c12(st, seed):
         if st["hetero"] == "k1":
             r["het"] = [[hm(1, k1=1, x0=1), hm(1, k2=1)], [], []]      # k1 -> k1 * x0 + k2 ; k2, k3 missing from the dict
             r["hetmode"] = "missing"
-        else:
+        elif st["hetero"] == "k3map":
             r["het"] = [[], [], [hm(2, k3=1, x0=1), hm(1, k1=1)]]        # k3 -> 2 k3 x0 + k1 ; others declared None
+            r["hetmode"] = "none_entries"
+        elif st["hetero"] == "k1k3":
+            # two heterogeneous keys; the map of k3 reads the RAW k1 (the key that sorts first): k1 -> k1 x0 + k2, k3 -> 2 k3 x0 + k1
+            r["het"] = [[hm(1, k1=1, x0=1), hm(1, k2=1)], [], [hm(2, k3=1, x0=1), hm(1, k1=1)]]
+            r["hetmode"] = "missing"
+        else:
+            # the map of k1 reads the RAW k3 (the key that sorts last): k1 -> k1 x0 + 3 k3, k3 -> 2 k3 x0 + 1
+            r["het"] = [[hm(1, k1=1, x0=1), hm(3, k3=1)], [], [hm(2, k3=1, x0=1), hm(1)]]
             r["hetmode"] = "none_entries"
     if st["obsk"]:
         rows = [rpoint(rng, nin, has_t) for _ in range(b)]
